@@ -147,7 +147,7 @@ def run_tlc(module, cfg_text, env=None, workers=1, timeout=900, simulate=None, e
     with open(cfgp, "w") as f:
         f.write(cfg_text)
     cmd = ["timeout", str(int(timeout)), "java", "-XX:+UseParallelGC", "-Xmx" + heap, "-Xss16m", "-cp", TLA_CP, "tlc2.TLC",
-           "-workers", str(workers or 1), "-metadir", os.path.join(rdir, "states"), "-config", cfgp]
+           "-noGenerateSpecTE", "-workers", str(workers or 1), "-metadir", os.path.join(rdir, "states"), "-config", cfgp]
     if simulate:
         cmd += ["-simulate", simulate]
     cmd += list(extra_args) + [os.path.join(SPEC, module + ".tla")]
